@@ -159,6 +159,16 @@ def inert_part(rep, ctx, hz, oracle, pool, rng):
                     break
             where.insert(rng.randint(0, len(where)), e)
         pairs.append(make_pair(t, cat, ps))
+    # a chain of 22 nested directories with eligible and inert files at every level
+    for cat in cats:
+        ps = pick_ps(rng, oracle, cat)
+        pick = content_picker(oracle, pool, cat, ps)
+        if pick is None:
+            continue
+        t = [F('L22.sol', pick(rng)), F('deep.t.sol', dc.UNREADABLE)]
+        for lvl in range(21, 0, -1):
+            t = [F('L%d.sol' % lvl, pick(rng)), D('n', t), F('x%d.T.sol' % lvl, b'contract {')]
+        pairs.append(make_pair(t, cat, ps, 'deep'))
     evaluate_pairs(hz, oracle, pairs, rng, 'c16')
     return pairs
 
